@@ -36,6 +36,15 @@ Theorem C36_refuted : sortedb (go_isort less_go C36_witness) = false.
 Proof. vm_compute. reflexivity. Qed.
 Print Assumptions C36_refuted.
 
+(* The known finding is pinned to its exact shape: the generated comparison IS
+   `a.off < b.off || a.len > b.len`.  Any other change to entitySorter.Less breaks this
+   theorem, and a broken obligation disables the known-finding classification in ./check,
+   so a different defect in the comparison is reported as a new violation. *)
+Theorem C36_known_defect_shape :
+  forall ao al bo bl, less_go ao al bo bl = orb (Z.ltb ao bo) (Z.gtb al bl).
+Proof. intros; destruct (Z.ltb ao bo) eqn:E1, (Z.gtb al bl) eqn:E2; unfold less_go; rewrite ?E1, ?E2; reflexivity. Qed.
+Print Assumptions C36_known_defect_shape.
+
 (* non-vacuity: the hypothesis of the full statement is satisfiable *)
 Example C36_spec_order_exists :
   exists less : less_t, forall ao al bo bl, less ao al bo bl = true <-> lt_spec ao al bo bl.
